@@ -139,6 +139,10 @@ func GetS2(c *core.Ctx) *Set {
 		}
 		s.WS = ws
 		corpus := gen.Corpus(c.Tier, embeddedSchemas(c, s1))
+		if c.Tier == "thorough" {
+			// random schemas per seed (VERIF_SEED); 24 files
+			corpus = append(corpus, gen.RandomSchemas(c.Seed+1, 24)...)
+		}
 		s.Results = ws.RunAll(corpus)
 		for _, r := range s.Results {
 			if r.RunErr != nil || r.Response == nil || r.Response.Error != nil {
